@@ -128,7 +128,7 @@ def natural_rods(chk, rng, quick):
     from elastica.interaction import _node_to_element_velocity
 
     for trial in range(4 if quick else 24):
-        n = int(rng.integers(1, 9))
+        n = int(rng.integers(2, 9))
         d = rng.normal(size=3)
         d /= np.linalg.norm(d)
         nrm = np.cross(d, rng.normal(size=3))
